@@ -214,6 +214,15 @@ def body_shapes(n, tier):
             yield (f"odd-eolblock{k_}", "\tn = n + 1; /* note */\n" * k_ + st * (n - 1 - k_) + "\treturn (n);\n")
             yield (f"odd-twoinstr{k_}", "\tn = n + 1; n = n + 2;\n" * k_ + st * (n - 1 - k_) + "\treturn (n);\n")
             yield (f"odd-emptystmt{k_}", "\tn = n + 1;;\n" * k_ + st * (n - 1 - k_) + "\treturn (n);\n")
+    # brace-less control structures whose single instruction is itself a control structure (chains of 3 and 4 lines)
+    if n >= 8:
+        for k_ in (1, 2):
+            chain3 = "\tif (n)\n\t\twhile (p[n])\n\t\t\tn++;\n"
+            yield (f"odd-chain3x{k_}", chain3 * k_ + st * (n - 1 - 3 * k_) + "\treturn (n);\n")
+        chain4 = "\tif (n)\n\t\twhile (p[n])\n\t\t\tif (n > 1)\n\t\t\t\tn++;\n"
+        yield ("odd-chain4", chain4 + st * (n - 5) + "\treturn (n);\n")
+        yield ("odd-chain-else", "\tif (n)\n\t\twhile (p[n])\n\t\t\tn++;\n\telse\n\t\twhile (n)\n\t\t\tn--;\n" + st * (n - 8) + "\treturn (n);\n")
+    if n >= 4:
         yield ("odd-declcomment", "\tint\taa; // counter\n\n" + st * (n - 3) + "\treturn (n);\n")
         yield ("odd-last-eolcomment", st * (n - 1) + "\treturn (n); // done\n")
     pairs, rest = divmod(n - 1, 4)
